@@ -293,6 +293,10 @@ def run(ix, R):
                 'the random sub-sample is drawn only on rank 0, then broadcast unconditionally, and the broadcast '
                 'result is what every rank partitions',
                 not why, key='; '.join(why), detail='; '.join(why), loc=f.loc(d.node))
+    with R.guard('2.weight', 'DOM', OP, 'positive weights'):
+        positive_weights(ix, R)
+    with R.guard('5.pooled', 'MPI', SM, 'pooled variance'):
+        local_variance(ix, R)
     site = 'taurex/util/util.py::random_int_iter'
     with R.guard('2.rand', 'MPI', site, 'random source'):
         f = ix.func(site)
@@ -570,6 +574,71 @@ for V_x in V_s:
             R.check('5.pv', 'MPI', site, 'parallelVariance (which gathers) is called for the same accumulators on every rank',
                     okp, key=str([[g.text() for g in e.guards] for e in pv]),
                     detail=str([[g.text() for g in e.guards] for e in pv]), loc=f.loc())
+
+
+def positive_weights(ix, R):
+    """OnlineVariance.update divides by the running sum of weights: with numpy floats a first sample of weight exactly
+    0.0 gives 0/0 = NaN (no ZeroDivisionError), and one NaN rank poisons every pooled result.  sample_parameters
+    therefore hands out weights[x] + a tiny positive constant."""
+    site = OP + '::Optimizer.sample_parameters'
+    f = ix.func(site)
+    fl = mkflow(ix, site)
+    pe = param_env(fl, f, ['S'])
+    ys = fl.of('yield')
+    stmt = 'every weight handed to the accumulators is strictly positive (the sample weight plus a tiny positive constant)'
+    if len(ys) != 1 or len(ys[0].loops) != 1:
+        R.error('2.weight', 'DOM', site, stmt, '%d yields' % len(ys), loc=f.loc())
+        return
+    y = ys[0]
+    at = atom_of(fl, y.value)
+    if at is None or at.head != 'tuple' or len(at.args) != 2:
+        R.error('2.weight', 'DOM', site, stmt, 'yields %s' % fmt(fl, y.value)[:100], loc=f.loc())
+        return
+    x = fl.tab.atom('elem', (y.loops[0].iter_rf[0], y.loops[0].index))
+    w = spec(fl, 'self.get_weights(S)[x]', dict(pe, x=x))
+    off = at.args[1] - w
+    c = off.const()
+    why = []
+    if c is None:
+        wa = atom_of(fl, at.args[1])
+        if wa is not None and wa.head == 'call' and wa.extra[0] in ('fn:max', 'fn:maximum') and len(wa.args) == 2 and \
+                any(fl.tab.equal(a_, w) for a_ in wa.args) and any(a_.const() is not None and a_.const() > 0 for a_ in wa.args):
+            pass
+        else:
+            R.error('2.weight', 'DOM', site, stmt, 'weight is %s' % fmt(fl, at.args[1])[:100], loc=f.loc())
+            return
+    elif c <= 0:
+        why.append('the yielded weight is weights[x]%s: a sample of weight 0 reaches OnlineVariance.update as exactly 0.0' % (
+            '' if c == 0 else ' %+g' % float(c)))
+    R.check('2.weight', 'DOM', site, stmt, not why, key='; '.join(why), detail='; '.join(why), loc=f.loc(y.node))
+
+
+def local_variance(ix, R):
+    """The spread reported by compute_error is the POOLED one: every accumulator is read through parallelVariance()
+    only.  Its rank-local properties (variance, sampleVariance, mean) describe the samples of one rank."""
+    n = 0
+    for site in (SM + '::SimpleForwardModel.compute_error', 'taurex/model/lightcurve/lightcurve.py::LightCurveModel.compute_error'):
+        f = ix.func(site)
+        accs = set()
+        for st in ast.walk(f.node):
+            def is_acc(v):
+                if isinstance(v, ast.IfExp):
+                    return is_acc(v.body) or is_acc(v.orelse)
+                return isinstance(v, ast.Call) and unparse(v.func).split('.')[-1] == 'OnlineVariance'
+            if isinstance(st, ast.Assign) and len(st.targets) == 1 and isinstance(st.targets[0], ast.Name) and is_acc(st.value):
+                accs.add(st.targets[0].id)
+        bad = []
+        for x in ast.walk(f.node):
+            if isinstance(x, ast.Attribute) and isinstance(x.value, ast.Name) and x.value.id in accs:
+                n += 1
+                if x.attr not in ('update', 'parallelVariance'):
+                    bad.append('%s.%s' % (x.value.id, x.attr))
+        R.check('5.pooled', 'MPI', site,
+                'accumulators are read through parallelVariance() only (the pooled variance), never through a rank-local property',
+                not bad, key='; '.join(bad), detail='%s: the spread of the samples this rank happened to process, not of the '
+                'whole draw (NaN on a rank with fewer than two samples)' % bad, loc=f.loc())
+    if n == 0:
+        R.note('5.pooled: the accumulators of compute_error are no longer plain local names; rank-local reads are not checked')
 
 
 MUTANTS = [
